@@ -334,7 +334,10 @@ CLAIMED = {
         "whole state is that map (dry_refines_spec), whose state is at every moment the report so far applied to the initial "
         "tree (spec_state_is_report); composed with name_mode_simulation: final_tree_is_report_applied - a path exists in the "
         "tree the REAL run leaves behind iff it exists after applying the DRY run's report to the initial tree (every "
-        "name-mode run: any plan, order, strategy, override and custom answers). Partial: path and directory mode (under the "
+        "name-mode run: any plan, order, strategy, override and custom answers). Closed form (C05Closed.lean): every report is valid "
+        "(spec_report_valid), and for a valid report without override whose sources are pairwise different initial entries the "
+        "replay is order-free - a path exists afterwards iff a reported rename went there, or it existed initially and none left "
+        "from it (valid_report_closed_form, final_tree_closed_form for the real run). Partial: path and directory mode (under the "
         "property's side conditions) and "
         "trees with symbolic links are not covered by the simulation theorems; they are established by correspondence: "
         "each generated scenario (1-3 roots with equal relative names, explicit files, symlinks, all strategies and "
